@@ -62,7 +62,7 @@ PROPS = {
               "choices, extra-limb flag); distinct by descriptor hash; non-trivial when res_size >= 1 and at least one "
               "source limb is used"
              " Later additions have their own keys in by_case_class (DESIGN.md 5.1): call sequences and object life cycles, multi-threaded cases (also run under ThreadSanitizer), sweeps over every value of a size parameter, placement / alignment / data-structure modes drawn from the case hash."),
-        require={"all": ["limbs_compared", "dispatch:native", "dispatch:generic", "dispatch:kernel-avx", "dispatch:kernel-ref", "aliased_calls", "interleaved_view_calls", "concurrent_vector_calls", "same_input_calls", "long_history_calls"]},
+        require={"all": ["limbs_compared", "dispatch:native", "dispatch:generic", "dispatch:kernel-avx", "dispatch:kernel-ref", "aliased_calls", "interleaved_view_calls", "concurrent_vector_calls", "same_input_calls", "long_history_calls", "one_limb_arbitrary_stride_calls", "same_buffers_other_data_calls"]},
         assumptions=["per-limb definition evaluated by the harness (missing limb = 0)",
                      "stride padding and guard bands are ASan-poisoned and carry canaries; inputs are byte-snapshotted", ASAN_NOTE],
     ),
@@ -73,7 +73,7 @@ PROPS = {
               "...+idft_tmp_a) for (N, operand family, dispatch, res/a limb counts, stride, repetition); distinct by "
               "descriptor hash; non-trivial when both operands are non-zero, N >= 4 and at least one row is produced"
              " Later additions have their own keys in by_case_class (DESIGN.md 5.1): call sequences and object life cycles, multi-threaded cases (also run under ThreadSanitizer), sweeps over every value of a size parameter, placement / alignment / data-structure modes drawn from the case hash."),
-        require={"all": ["concurrent_entry_calls", "products_checked", "exact_regime_products", "budget_regime_products", "frontier_products", "lifecycle_products", "lifecycle_uses", "idft_variant:idft(res==a_dft),short-dft",
+        require={"all": ["concurrent_entry_calls", "products_checked", "exact_regime_products", "budget_regime_products", "frontier_products", "lifecycle_products", "lifecycle_uses", "same_buffers_other_data_calls", "idft_variant:idft(res==a_dft),short-dft",
                          "zero_rows_checked", "oracle_selfcheck_ok"]},
         assumptions=["exact oracle: schoolbook with 128-bit accumulators, or an oracle-side NTT modulo a 62-bit prime "
                      "(cross-checked against schoolbook at start-up)",
@@ -86,7 +86,7 @@ PROPS = {
               "prepare + both apply entry points + inverse DFT; distinct by descriptor hash; non-trivial when "
               "min(nrows,a_size) >= 1 and min(ncols,res_size) >= 1 (zero-size classes are counted separately)"
              " Later additions have their own keys in by_case_class (DESIGN.md 5.1): call sequences and object life cycles, multi-threaded cases (also run under ThreadSanitizer), sweeps over every value of a size parameter, placement / alignment / data-structure modes drawn from the case hash."),
-        require={"all": ["shapes_checked", "columns_checked", "zero_columns_checked", "exact_regime_columns", "zero_polynomial_matrix_entries", "concurrent_prepare_apply_calls", "scaled_input_limbs_cases",
+        require={"all": ["shapes_checked", "columns_checked", "zero_columns_checked", "exact_regime_columns", "zero_polynomial_matrix_entries", "concurrent_prepare_apply_calls", "scaled_input_limbs_cases", "same_buffers_other_data_calls",
                          "layout:column-major(N<8)", "layout:blocked", "layout:blocked(one block)"]},
         assumptions=["exact oracle per (row, column) product summed in 128-bit integers; budget = sum of the C01 "
                      "budgets of the rows + 1/2", "scratch buffers are exactly *_tmp_bytes and NaN-prefilled", ASAN_NOTE],
@@ -101,7 +101,7 @@ PROPS = {
               "conversions / block copies (nn, repetition); distinct by descriptor hash; non-trivial when ell >= 1 or "
               "the conversion input is non-empty"
              " Later additions have their own keys in by_case_class (DESIGN.md 5.1): call sequences and object life cycles, multi-threaded cases (also run under ThreadSanitizer), sweeps over every value of a size parameter, placement / alignment / data-structure modes drawn from the case hash."),
-        require={"all": ["product_lanes_checked", "conversion_values_checked", "blocks_checked", "concurrent_kernel_calls", "exhaustive_ell_values", "lifecycle_uses", "lifecycle_mass_objects_alive"]},
+        require={"all": ["product_lanes_checked", "conversion_values_checked", "blocks_checked", "concurrent_kernel_calls", "exhaustive_ell_values", "lifecycle_uses", "lifecycle_mass_objects_alive", "same_buffers_other_data_calls"]},
         assumptions=["oracle: operands reduced modulo each prime, products accumulated with 128-bit arithmetic; CRT "
                      "constants recomputed by the oracle", ASAN_NOTE],
     ),
@@ -112,7 +112,7 @@ PROPS = {
               "an evaluation-map check, or one module-level dft/idft call (N, a/dft/res limb counts, stride, variant); "
               "distinct by descriptor hash; non-trivial when n >= 2 and the input is not constant zero"
              " Later additions have their own keys in by_case_class (DESIGN.md 5.1): call sequences and object life cycles, multi-threaded cases (also run under ThreadSanitizer), sweeps over every value of a size parameter, placement / alignment / data-structure modes drawn from the case hash."),
-        require={"all": ["roundtrips_checked", "linearity_checked", "convolutions_checked", "horner_evaluations", "spectrum_limbs_checked", "concurrently_built_tables", "lifecycle_uses",
+        require={"all": ["roundtrips_checked", "linearity_checked", "convolutions_checked", "horner_evaluations", "spectrum_limbs_checked", "concurrently_built_tables", "lifecycle_uses", "concurrent_entry_calls", "same_buffers_other_data_calls",
                          "module_roundtrip_limbs"]},
         assumptions=["oracle works on the residues of the 64-bit lanes modulo each prime; convolution by schoolbook "
                      "(n<=256) or an oracle-side NTT with its own root search",
@@ -146,7 +146,7 @@ PROPS = {
               "transform twice on a guarded exact-size buffer; distinct by descriptor hash; non-trivial when m >= 2 "
               "and the input is non-zero"
              " Later additions have their own keys in by_case_class (DESIGN.md 5.1): call sequences and object life cycles, multi-threaded cases (also run under ThreadSanitizer), sweeps over every value of a size parameter, placement / alignment / data-structure modes drawn from the case hash."),
-        require={"all": ["concurrent_entry_calls", "transforms_checked", "horner_validations", "lifecycle_uses", "impl:dispatch-native", "impl:dispatch-generic",
+        require={"all": ["concurrent_entry_calls", "transforms_checked", "horner_validations", "lifecycle_uses", "impl:dispatch-native", "impl:dispatch-generic", "impl:dispatch-avx2-only", "impl:dispatch-fma-only", "same_buffers_other_data_calls",
                          "impl:ref-direct", "impl:avx2-direct", "impl:leaf-avx", "impl:leaf-ref", "impl:bfs16-ref", "impl:builtin-buffers", "impl:naive", "tables_built_concurrently", "cold_process_constructions", "table_lifecycle_checks", "simple_sequence_calls",
                          "impl:rec16-ref"]},
         assumptions=["long-double FFT oracle (own twiddles by cosl/sinl), its rounding (about log2(m) 2^-64 relative) "
@@ -168,7 +168,7 @@ PROPS = {
              " Later additions have their own keys in by_case_class (DESIGN.md 5.1): call sequences and object life cycles, multi-threaded cases (also run under ThreadSanitizer), sweeps over every value of a size parameter, placement / alignment / data-structure modes drawn from the case hash."),
         require={"all": ["values_checked", "rounding_exercised", "conv:reim_from_znx64", "conv:reim_to_znx64",
                          "conv:reim_to_tnx", "conv:cplx_from_znx32", "conv:cplx_from_tnx32", "conv:cplx_to_tnx32",
-                         "exhaustive_int32:cplx_from_znx32_ref", "exhaustive_int32:cplx_from_znx32_avx2_fma", "exhaustive_int32:cplx_from_tnx32_ref", "exhaustive_int32:cplx_from_tnx32_avx2_fma", "page_offset_sweep_calls", "concurrent_simple_conversion_calls"]},
+                         "exhaustive_int32:cplx_from_znx32_ref", "exhaustive_int32:cplx_from_znx32_avx2_fma", "exhaustive_int32:cplx_from_tnx32_ref", "exhaustive_int32:cplx_from_tnx32_avx2_fma", "page_offset_sweep_calls", "concurrent_simple_conversion_calls", "same_buffers_other_data_calls"]},
         assumptions=["exact comparison in __float128: r*d, x and 2^32 scalings fit in 113 bits",
                      "exact .5 ties accept both neighbours; accelerated kernels are called directly only at sizes that "
                      "fill their vector step (the library itself selects them for m >= 8)", ASAN_NOTE],
@@ -181,7 +181,7 @@ PROPS = {
               "family); pointwise mul/addmul (layout, variant, m, family, aliasing); convolution (sizea, sizeb) over all "
               "windows; distinct by descriptor hash; non-trivial when at least one row / term / operand is non-empty"
              " Later additions have their own keys in by_case_class (DESIGN.md 5.1): call sequences and object life cycles, multi-threaded cases (also run under ThreadSanitizer), sweeps over every value of a size parameter, placement / alignment / data-structure modes drawn from the case hash."),
-        require={"all": ["concurrent_entry_calls", "blocks_checked", "layout_roundtrips", "dot_products", "pointwise_vectors",
+        require={"all": ["concurrent_entry_calls", "blocks_checked", "bitwise_block_copies_checked", "same_buffers_other_data_calls", "layout_roundtrips", "dot_products", "pointwise_vectors",
                          "convolution_windows", "fftvec:cplx:avx512", "fftvec:cplx:sse", "fftvec:reim4:fma", "simple_api_calls"]},
         assumptions=["complex-arithmetic oracle in long double with the rounding budgets of DESIGN Appendix A",
                      "the inner order of the four numbers of a reim4 block produced by reim4_from_cplx is not "
@@ -259,7 +259,7 @@ PROPS = {
               "(padding included) and a table hash after each entry point; distinct by descriptor hash; non-trivial when "
               "at least one call with a non-empty source ran"
              " Later additions have their own keys in by_case_class (DESIGN.md 5.1): call sequences and object life cycles, multi-threaded cases (also run under ThreadSanitizer), sweeps over every value of a size parameter, placement / alignment / data-structure modes drawn from the case hash."),
-        require={"all": ["calls_snapshotted", "source_bytes_compared", "table_bytes_compared", "ro_protected_bytes", "inplace_tail_checks", "role_rotation_calls", "long_history_calls"]},
+        require={"all": ["calls_snapshotted", "source_bytes_compared", "table_bytes_compared", "ro_protected_bytes", "inplace_tail_checks", "role_rotation_calls", "long_history_calls", "batches_called_from_another_thread"]},
         assumptions=["sources deliberately overwritten by contract are declared INOUT in the catalogue (vec_znx_idft_tmp_a, "
                      "in-place transforms, accumulating products) and are not snapshotted",
                      "table hashes cover every allocation whose layout is known; in the 'ro' build all allocations made "
@@ -273,7 +273,7 @@ PROPS = {
               "dispatch comparison (public entry point under generic-C and accelerated dispatch, N, seed); both members "
               "receive identical arguments; distinct by descriptor hash; non-trivial when the compared output is non-empty"
              " Later additions have their own keys in by_case_class (DESIGN.md 5.1): call sequences and object life cycles, multi-threaded cases (also run under ThreadSanitizer), sweeps over every value of a size parameter, placement / alignment / data-structure modes drawn from the case hash."),
-        require={"all": ["pair_comparisons", "dispatch_comparisons", "dispatch_config:native", "dispatch_config:avx2-only", "dispatch_config:fma-only", "concurrent_pair_comparisons", "class:bitwise", "class:modq", "class:float-budget",
+        require={"all": ["pair_comparisons", "dispatch_comparisons", "dispatch_config:native", "dispatch_config:avx2-only", "dispatch_config:fma-only", "concurrent_pair_comparisons", "class:bitwise", "class:modq", "class:float-budget", "class:pointwise-product",
                          "class:rounded-int64", "pair:cplx_fftvec_addmul_avx512", "pair:cplx_fftvec_addmul_sse",
                          "pair:reim_fft16_avx_fma", "pair:fft64_vmp_apply_dft_to_dft_avx"]},
         assumptions=["pairwise floating-point budget: relative 2-norm difference <= 2^-42 on the catalogue's random operands "
